@@ -6,6 +6,8 @@ for every option vector and every tree of any depth and width that respects `Sha
 is the one the property states, "whenever raw HTML is not passed through").
 -/
 import Comrak.Lemmas.HtmlTree
+import Comrak.Lemmas.HtmlLexBal
+import Comrak.Lemmas.HtmlLexFn
 namespace Comrak.C10
 open Comrak Bytes
 
@@ -82,6 +84,63 @@ theorem html_balanced_of_shape (o : HtmlOpts) (nt : NormTable) (t : Tree) (h : S
     balanced (renderToks o nt t) = true :=
   html_balanced o nt t (shapeT_imp_balShapeT t none h)
 
+/-! ### From tokens to bytes
+
+The byte-level lexer `lexHtml` (the front end of the oracle `balancedBytes` that is run on the real
+output) is proved to invert the spelling of comrak's own safe markup; token-level balance then gives
+byte-level balance for the core of the oracle. -/
+
+/-- **The lexer inverts the spelling**: for every token list of comrak's own safe markup
+    (`allowedTok`: vocabulary names, attribute values that are `escape`/`escape_href` images or
+    harmless literals, text escaped or harmless, the placeholder comment) the byte-level lexer run
+    over the spelled bytes returns exactly the tokens' image `toL` (adjacent text pieces merged,
+    attribute values as spelled).  No side condition beyond `allowedTok` is needed. -/
+theorem lex_spell (ts : List Tok) (h : ts.all allowedTok = true) : lexHtml (spell ts) = some (toL ts) :=
+  Comrak.lex_spell ts h
+
+/-- `balancedBytesCore` (lexer + tag stack + void elements self-closed and only they) is the oracle
+    `balancedBytes` minus its `<thead>`/`<tbody>`-once-under-`<table>` and footnote-section-once
+    clauses: whatever the full oracle accepts the core accepts. -/
+theorem balancedBytes_imp_core (bs : Bytes) (h : balancedBytes bs = .ok ()) : balancedBytesCore bs = .ok () :=
+  Comrak.balancedBytes_imp_core bs h
+
+/-- Every start tag the renderer writes is for a non-void element, every self-closed tag for a void
+    one (`br`, `hr`, `img`, `input`) - all options, all trees. -/
+theorem html_void_discipline (o : HtmlOpts) (nt : NormTable) (t : Tree) : (renderToks o nt t).all voidOk = true :=
+  renderToks_void o nt t
+
+/-- Token-level balance is byte-level balance, for any allowed void-respecting token list. -/
+theorem balanced_tokens_balanced_bytes (ts : List Tok) (ha : ts.all allowedTok = true) (hv : ts.all voidOk = true)
+    (hb : balanced ts = true) : balancedBytesCore (spell ts) = .ok () :=
+  balancedBytesCore_spell ts ha hv hb
+
+/-- **C10 on bytes (partial: core oracle).** In safe mode (`unsafe_ = false`, so no raw HTML is
+    passed through) the *bytes* of the rendered document lex as complete tags, comments and text,
+    every end tag matches the innermost open start tag, nothing is left open, void elements are
+    self-closed and no other element is.  Hypotheses: `balShapeT` (C10), `treeSafe`, `NormSafe` and a
+    harmless `header_ids` prefix (C02).
+    MISSING relative to the run-time oracle `balancedBytes`: its two bookkeeping clauses (`<thead>` /
+    `<tbody>` at most once and directly under `<table>`; the footnote `<section>` at most once) are
+    not covered by this theorem; the second is `html_footnote_section_once_bytes` below, the first is
+    only checked by running `balancedBytes` on the real output. -/
+theorem html_balanced_bytes_partial (o : HtmlOpts) (nt : NormTable) (t : Tree)
+    (hb : balShapeT none t = true) (hu : o.unsafe_ = false)
+    (hp : ∀ p, o.headerIds = some p → litSafe p = true) (hn : NormSafe nt) (ht : treeSafe t = true) :
+    balancedBytesCore (renderHtml o nt t) = .ok () :=
+  balancedBytesCore_spell _ (renderToks_allowed o hu hp nt hn t ht) (renderToks_void o nt t)
+    (html_balanced o nt t hb)
+
+/-- **Footnote section at most once, on bytes** (the `footnotesTwice` clause of `balancedBytes`,
+    which does not depend on the tag stack): in safe mode the rendered bytes lex, and the lexed tokens
+    contain at most one `<section class="footnotes" ...>` start tag.  With
+    `html_balanced_bytes_partial` this leaves exactly one clause of the oracle unproved at byte
+    level: `<thead>`/`<tbody>` at most once and directly under `<table>`. -/
+theorem html_footnote_section_once_bytes (o : HtmlOpts) (nt : NormTable) (t : Tree) (hu : o.unsafe_ = false)
+    (hp : ∀ p, o.headerIds = some p → litSafe p = true) (hn : NormSafe nt) (ht : treeSafe t = true) :
+    ∃ l, lexHtml (renderHtml o nt t) = some l ∧ l.countP isFnSecL ≤ 1 := by
+  obtain ⟨l, h1, h2⟩ := lex_spell_fnCount _ (renderToks_allowed o hu hp nt hn t ht)
+  exact ⟨l, h1, by rw [h2]; exact renderToks_fnCount o nt t⟩
+
 /-! Non-vacuity: a concrete shape-respecting tree with a two-row table and a footnote. -/
 def sampleTree : Tree :=
   .node .document {} (.cons
@@ -92,5 +151,8 @@ def sampleTree : Tree :=
 
 example : Shape sampleTree = true := by decide
 example : (events (renderToks {} {} sampleTree)).length > 20 := by decide
+example : treeSafe sampleTree = true := by decide
+example : fnCount (renderToks {} {} sampleTree) = 1 := by decide +kernel
+example : (match balancedBytes (renderHtml {} {} sampleTree) with | .ok _ => true | .error _ => false) = true := by decide +kernel
 
 end Comrak.C10
